@@ -31,7 +31,7 @@ LInit == [sock |-> "none", closing |-> FALSE, closed |-> FALSE, ready |-> FALSE,
           frags |-> <<>>, u8 |-> U8Start, istext |-> FALSE, sentClose |-> -1, pollStart |-> -1,
           nextPing |-> 0, lastPong |-> 0, startT |-> -1, sel |-> "none"]
 EInit == [clock |-> 0, nItems |-> 0, nIdle |-> 0, nReacts |-> 0, srvOpen |-> "none", srvU8 |-> U8Start,
-          srvClosed |-> FALSE, partial |-> FALSE, sentHttp |-> FALSE, nev |-> 0, ic |-> 0, pdt |-> 0, silent |-> FALSE]
+          srvClosed |-> FALSE, partial |-> FALSE, sentHttp |-> FALSE, nev |-> 0, ic |-> 0, pdt |-> 0, silent |-> FALSE, srvAcc |-> PVEmpty]
 SInit == [dns |-> "ok", net |-> <<>>, writes |-> <<>>, stream |-> <<>>, steps |-> <<>>, react |-> <<>>]
 
 Init == /\ pc = "start" /\ ret = <<>> /\ L = LInit /\ E = EInit /\ inq = <<>> /\ fk = "none"
@@ -42,7 +42,8 @@ SessionTime == IF L.ready THEN E.clock - L.startT ELSE 0
 \* ---- observation records --------------------------------------------------------------------------
 EvRec(name, extra) == [k |-> "ev", name |-> name, i |-> E.nev, t |-> E.clock] @@ extra
 WrFrame(op, v)     == [k |-> "wr", what |-> "frame", op |-> op, pl |-> v, t |-> E.clock]
-CallRec(m, res, wserr, nwr, extra) == [k |-> "call", m |-> m, res |-> res, wserr |-> wserr, nwr |-> nwr] @@ extra
+CallRec(m, res, wserr, nwr, extra) == [k |-> "call", m |-> m, res |-> res, wserr |-> wserr, nwr |-> nwr, at |-> E.nev - 1] @@ extra @@ [nwrf |-> 0]
+Goodbye == <<103, 111, 111, 100, 98, 121, 101>>
 SockClose          == [k |-> "sock", op |-> "close"]
 CloseSockObs(LL)   == IF LL.sock = "open" THEN <<SockClose>> ELSE <<>>
 
@@ -72,7 +73,7 @@ Refusal(LL) == IF LL.sock # "open" THEN "WebSocketUnavailable"
 WriteOutcomes == {"ok"} \cup (IF "write_error" \in Faults THEN {"error"} ELSE {})
 WOut(LL) == IF Refusal(LL) = "go" THEN WriteOutcomes ELSE {"refused"}
 \* observation and script effect of one library/application write with outcome w
-WrObs(w, op, v)  == IF w = "ok" THEN <<WrFrame(op, v)>> ELSE IF w = "error" THEN <<[k |-> "wrf"]>> ELSE <<>>
+WrObs(w, op, v)  == IF w = "ok" THEN <<WrFrame(op, v)>> ELSE IF w = "error" THEN <<[k |-> "wrf", op |-> op]>> ELSE <<>>
 WrScript(s, w)   == IF w = "refused" THEN s ELSE [s EXCEPT !.writes = Append(@, w)]
 
 \* ---- the server (environment) ---------------------------------------------------------------------
@@ -91,18 +92,26 @@ LegalItem(it, e) ==
   /\ e.sentHttp /\ ~e.partial
   /\ it.t = "f" /\ Conforming => ConformingFrame(it, e)
   /\ it.t = "part" => ~Conforming
+\* payload of the data message a frame belongs to, up to and including that frame (plain concatenation)
+AccAfter(it, e) == IF it.t # "f" \/ IsControl(it.op) THEN e.srvAcc
+                   ELSE IF it.op # OpCont THEN it.pl
+                   ELSE IF PVIsSmall(e.srvAcc) /\ PVIsSmall(it.pl) THEN PVCat(e.srvAcc, it.pl)
+                   ELSE [n |-> <<(PVLen(e.srvAcc) + PVLen(it.pl)) \div 65536, (PVLen(e.srvAcc) + PVLen(it.pl)) % 65536>>, s |-> <<>>, h |-> "cat"]
+WithAcc(it, e) == IF it.t = "f" THEN it @@ [acc |-> AccAfter(it, e)] ELSE it
 SrvAfter(it, e) ==      \* server-side bookkeeping after sending an item
   IF it.t = "part" THEN [e EXCEPT !.partial = TRUE, !.nItems = @ + 1]
   ELSE LET kind == FrameKind(it, e.srvOpen) IN
-    [e EXCEPT !.nItems = @ + 1,
+    [e EXCEPT !.nItems = @ + 1, !.srvAcc = AccAfter(it, e),
               !.srvClosed = @ \/ it.op = OpClose,
               !.srvOpen = IF kind = "ctl" THEN @ ELSE IF it.fin = 1 THEN "none" ELSE kind,
               !.srvU8 = IF kind = "text" /\ PVIsSmall(it.pl) THEN U8Run(IF it.op = 1 THEN U8Start ELSE @, it.pl.s) ELSE @]
 
 \* ---------------------------------------------------------------------------------------------------
 \* session.run(): Connecting, connect, request
+CfgRec == [k |-> "cfg", poll |-> Cfg.poll, ping_rate |-> Cfg.ping_rate, ping_timeout |-> Cfg.ping_timeout,
+           close_timeout |-> Cfg.close_timeout, auto_pong |-> Cfg.auto_pong, naddr |-> NAddr, compress |-> FALSE]
 Start == /\ pc = "start"
-         /\ Yield(obs, "connecting", NoX, "connect")
+         /\ Yield(<<CfgRec>>, "connecting", NoX, "connect")
          /\ UNCHANGED <<L, inq, fk, script>>
 
 Connect ==
@@ -138,7 +147,7 @@ SendRequest ==
              THEN /\ Yield(Append(obs, [k |-> "wr", what |-> "request", t |-> E.clock]), "connected", NoX, "mksel")
                   /\ UNCHANGED <<L, inq, fk>>
              ELSE /\ L' = [L EXCEPT !.sock = "gone"]
-                  /\ Yield(obs \o <<[k |-> "wrf"], SockClose>>, "connect_fail", NoX, "fin")
+                  /\ Yield(obs \o <<[k |-> "wrf", op |-> -1], SockClose>>, "connect_fail", NoX, "fin")
                   /\ UNCHANGED <<inq, fk>>
 
 MakeSelector ==
@@ -188,7 +197,7 @@ Wait ==
      \/ \E dt \in Dts : \E it \in Items :     \* data arrives
         /\ E.sentHttp /\ E.nItems < MaxItems /\ LegalItem(it, E)
         /\ E' = [SrvAfter(it, E) EXCEPT !.clock = @ + dt, !.pdt = dt]
-        /\ inq' = <<it>>
+        /\ inq' = <<WithAcc(it, E)>>
         /\ script' = [script EXCEPT !.stream = Append(@, it)]
         /\ pc' = "chunk" /\ UNCHANGED ret
         /\ UNCHANGED <<L, fk, obs>>
@@ -210,7 +219,7 @@ Chunk ==
   /\ \/ \E it \in Items :
         /\ Len(inq) < ChunkMax /\ E.nItems < MaxItems /\ LegalItem(it, E)
         /\ E' = SrvAfter(it, E)
-        /\ inq' = Append(inq, it)
+        /\ inq' = Append(inq, WithAcc(it, E))
         /\ script' = [script EXCEPT !.stream = Append(@, it)]
         /\ UNCHANGED <<pc, ret, L, fk, obs>>
      \/ /\ script' = [script EXCEPT !.steps = Append(@, [kind |-> "data", dt |-> E.pdt, items |-> Len(inq)])]
@@ -253,6 +262,11 @@ RegCloseTimeout ==
      THEN pc' = "exit_force" /\ UNCHANGED <<ret, L, E, inq, fk, obs, script>>
      ELSE Return /\ UNCHANGED <<L, E, inq, fk, obs, script>>
 
+SrvRec(it, idx) ==
+  IF it.t = "f" THEN [k |-> "srv", i |-> idx, it |-> "f", op |-> it.op, fin |-> it.fin, rsv1 |-> it.rsv1, rsv2 |-> it.rsv2,
+                      rsv3 |-> it.rsv3, mask |-> it.mask, pl |-> it.pl, acc |-> it.acc, ann |-> it.ann]
+  ELSE [k |-> "srv", i |-> idx, it |-> it.t]
+
 \* ---- recv -----------------------------------------------------------------------------------------
 Recv ==
   /\ pc = "recv"
@@ -268,7 +282,8 @@ Recv ==
      THEN /\ obs' = Append(obs, [k |-> "rd", what |-> "boom"])
           /\ pc' = "exit_error" /\ inq' = <<>> /\ UNCHANGED <<ret, L, E, fk, script>>
      ELSE /\ E' = [E EXCEPT !.ic = @ + Len(inq)]
-          /\ obs' = Append(obs, [k |-> "rd", what |-> "data", ic |-> E.ic + Len(inq)])
+          /\ obs' = obs \o [j \in 1..Len(inq) |-> SrvRec(inq[j], E.ic + j - 1)]
+                        \o <<[k |-> "rd", what |-> "data", ic |-> E.ic + Len(inq)]>>
           /\ pc' = IF L.closed THEN "looptest" ELSE "feednext"
           /\ inq' = IF L.closed THEN <<>> ELSE inq
           /\ UNCHANGED <<ret, L, fk, script>>
@@ -344,21 +359,21 @@ FeedNext ==
                    IF PVIsSmall(r.pl) /\ ~WellFormed(r.pl.s)
                    THEN /\ L' = L1 /\ ProtoError(TRUE) /\ UNCHANGED <<fk, script>>
                    ELSE /\ L' = L1
-                        /\ YieldR(obs, "text", [pl |-> r.pl], <<"reg_poll", "feednext">> \o ret)
+                        /\ YieldR(obs, "text", [pl |-> r.pl, cps |-> IF PVIsSmall(r.pl) THEN Decode(r.pl.s) ELSE <<>>, isstr |-> TRUE, stable |-> TRUE], <<"reg_poll", "feednext">> \o ret)
                          /\ UNCHANGED <<fk, script>>
               ELSE IF r.op = OpBin THEN
                    /\ L' = L1
-                   /\ YieldR(obs, "binary", [pl |-> r.pl], <<"reg_poll", "feednext">> \o ret)
+                   /\ YieldR(obs, "binary", [pl |-> r.pl, isbytes |-> TRUE, stable |-> TRUE], <<"reg_poll", "feednext">> \o ret)
                     /\ UNCHANGED <<fk, script>>
               ELSE IF r.op = OpPong THEN
                    /\ L' = [L1 EXCEPT !.lastPong = SessionTime]
-                   /\ YieldR(obs, "pong", [pl |-> r.pl], <<"reg_poll", "feednext">> \o ret)
+                   /\ YieldR(obs, "pong", [pl |-> r.pl, isbytes |-> TRUE, stable |-> TRUE], <<"reg_poll", "feednext">> \o ret)
                     /\ UNCHANGED <<fk, script>>
               ELSE IF r.op = OpPing THEN
                    \E w \in (IF Cfg.auto_pong THEN WOut(L1) ELSE {"refused"}) :
                    /\ L' = L1
                    /\ script' = WrScript(script, w)
-                   /\ YieldR(obs \o WrObs(w, OpPong, r.pl), "ping", [pl |-> r.pl], <<"reg_poll", "feednext">> \o ret)
+                   /\ YieldR(obs \o WrObs(w, OpPong, r.pl), "ping", [pl |-> r.pl, isbytes |-> TRUE, stable |-> TRUE], <<"reg_poll", "feednext">> \o ret)
                     /\ UNCHANGED <<fk>>
               ELSE \* Close
                 LET c == ParseClose(r.pl) IN
@@ -366,11 +381,11 @@ FeedNext ==
                 ELSE IF c.code \in LibInvalidCloseCodes THEN /\ L' = L1 /\ ProtoError(FALSE) /\ UNCHANGED <<fk, script>>
                 ELSE IF L1.closing
                 THEN /\ L' = L1
-                     /\ YieldR(obs, "closed", [code |-> c.code, reason |-> PV(c.reason)], <<"reg_poll", "close_fin">> \o ret)
+                     /\ YieldR(obs, "closed", [code |-> c.code, reason |-> PV(c.reason), stable |-> TRUE], <<"reg_poll", "close_fin">> \o ret)
                       /\ UNCHANGED <<fk, script>>
                 ELSE /\ L' = L1
                      /\ fk' = r.pl
-                     /\ YieldR(obs, "closing", [code |-> c.code, reason |-> PV(c.reason)], <<"reg_poll", "close_echo">> \o ret)
+                     /\ YieldR(obs, "closing", [code |-> c.code, reason |-> PV(c.reason), stable |-> TRUE], <<"reg_poll", "close_echo">> \o ret)
                       /\ UNCHANGED <<script>>
 
 CloseFin ==     \* _on_close resumes after Closed was yielded
@@ -402,6 +417,11 @@ ErrClose ==     \* non-critical protocol error: close(1002, text) then forced di
           /\ pc' = "exit_force"
           /\ UNCHANGED <<ret, E, inq, fk>>
 
+\* final state of the descriptors: one entry per socket that was handed to the session, one per selector
+EndRec(sockst, selst) ==
+  [k |-> "end", socks |-> IF sockst = "none" THEN <<>> ELSE <<[closed |-> sockst # "open", alive |-> FALSE]>>,
+   sels |-> IF L.sel = "none" THEN <<>> ELSE <<[closed |-> (IF L.sel = "open" THEN selst = "closed" ELSE TRUE)]>>]
+
 \* ---- loop exits -----------------------------------------------------------------------------------
 ExitNonGraceful ==
   /\ pc \in {"exit_force", "exit_sockfail", "exit_error"}
@@ -417,7 +437,7 @@ ExitGraceful ==
 
 Finish ==
   /\ pc = "fin"
-  /\ obs' = obs \o (IF L.sel = "open" THEN <<[k |-> "sel", op |-> "close"]>> ELSE <<>>) \o <<[k |-> "stop"]>>
+  /\ obs' = obs \o (IF L.sel = "open" THEN <<[k |-> "sel", op |-> "close"]>> ELSE <<>>) \o <<[k |-> "stop"], EndRec(L.sock, "closed")>>
   /\ L' = [L EXCEPT !.sel = IF @ = "open" THEN "closed" ELSE @]
   /\ pc' = "done"
   /\ UNCHANGED <<ret, E, inq, fk, script>>
@@ -432,18 +452,18 @@ AppSend(m, op, v) ==
   THEN /\ obs' = Append(obs, CallRec(m, rf, TRUE, 0, [pl |-> v]))
        /\ UNCHANGED <<L>> /\ script' = [script EXCEPT !.react = Append(@, ReactRec(m))]
   ELSE \E w \in WriteOutcomes :
-       /\ obs' = obs \o WrObs(w, op, v) \o <<CallRec(m, IF w = "ok" THEN "ok" ELSE "TransportFail", w # "ok", IF w = "ok" THEN 1 ELSE 0, [pl |-> v])>>
+       /\ obs' = obs \o WrObs(w, op, v) \o <<CallRec(m, IF w = "ok" THEN "ok" ELSE "TransportFail", w # "ok", IF w = "ok" THEN 1 ELSE 0, [pl |-> v, nwrf |-> IF w = "ok" THEN 0 ELSE 1])>>
        /\ script' = [WrScript(script, w) EXCEPT !.react = Append(@, ReactRec(m))]
        /\ UNCHANGED <<L>>
 
 AppClose ==
   IF L.closed \/ L.closing
-  THEN /\ obs' = Append(obs, CallRec("close", "ok", FALSE, 0, [code |-> 1000]))
+  THEN /\ obs' = Append(obs, CallRec("close", "ok", FALSE, 0, [code |-> 1000, reason |-> PV(Goodbye)]))
        /\ script' = [script EXCEPT !.react = Append(@, ReactRec("close"))]
        /\ UNCHANGED L
   ELSE \E w \in WOut(L) :
-       /\ obs' = obs \o WrObs(w, OpClose, PV(ClosePayload(1000, <<103, 111, 111, 100, 98, 121, 101>>)))
-                     \o <<CallRec("close", "ok", FALSE, IF w = "ok" THEN 1 ELSE 0, [code |-> 1000])>>
+       /\ obs' = obs \o WrObs(w, OpClose, PV(ClosePayload(1000, Goodbye)))
+                     \o <<CallRec("close", "ok", FALSE, IF w = "ok" THEN 1 ELSE 0, [code |-> 1000, reason |-> PV(Goodbye), nwrf |-> IF w = "error" THEN 1 ELSE 0])>>
        /\ script' = [WrScript(script, w) EXCEPT !.react = Append(@, ReactRec("close"))]
        /\ L' = [L EXCEPT !.closing = TRUE, !.sentClose = SessionTime]
 
@@ -461,6 +481,7 @@ AppReact ==
      \/ /\ name \in AbandonAt
         /\ obs' = obs \o <<[k |-> "abandon", at |-> E.nev - 1]>> \o CloseSockObs(L)
                       \o (IF L.sel = "open" THEN <<[k |-> "sel", op |-> "close"]>> ELSE <<>>)
+                      \o <<EndRec("gone", "closed")>>
         /\ L' = [L EXCEPT !.sock = IF @ = "open" THEN "gone" ELSE @, !.sel = IF @ = "open" THEN "closed" ELSE @]
         /\ script' = [script EXCEPT !.react = Append(@, ReactRec("abandon"))]
         /\ pc' = "done" /\ ret' = <<>>
